@@ -205,3 +205,7 @@ RULE = ("leg A: TLC explores WbDecoder_MC (3-bit word addresses, 1-2 granules pe
 
 def main(tier):
     return hwcheck.check("C07", tier, Adapter(), RULE)
+
+
+def replay(path):
+    return hwcheck.replay(path, [Adapter()])
